@@ -10,7 +10,9 @@
                   arithmetic, and making every comparison false; [clean] = flag down. *)
 From Coq Require Import List Arith Lia PeanoNat ZArith Bool QArith Qcanon.
 From TV Require Import Num.Ops Lin.Tab Lin.BigSum Lin.Mat TT.Chain Model.ActOne Model.Transformation Model.Svd Model.Stab
-  Model.Anova Model.ActOneR Model.Wf Proofs.WfP Proofs.WfPGuard Proofs.WfPMany.
+  Model.Anova Model.ActOneR Model.Wf Model.Qtt Model.Als Model.AlsFunc Model.Func Model.Cross Lin.Solve
+  Proofs.WfP Proofs.WfPGuard Proofs.WfPMany Proofs.WfPQtt Proofs.WfPProj Proofs.WfPFit
+  Proofs.AlsSim Proofs.CrossGeo Proofs.CrossP Proofs.CrossEx.
 Import ListNotations.
 Close Scope Qc_scope. Close Scope Q_scope.
 
@@ -85,6 +87,77 @@ Theorem C11_add_many_wf : forall T (K : ops T) ns (trunc : nat -> list (core T) 
   2 <= length ns -> (forall k Y, valid ns Y -> valid ns (trunc k Y)) ->
   forall Y0 rest, valid ns Y0 -> Forall (valid ns) rest -> valid ns (add_many K trunc (Y0 :: rest)).
 Proof. exact (@add_many_valid). Qed.
+
+(* ---- QTT conversions ---- *)
+(* qtt_to_tt(Y, q): every valid QTT chain of d*q cores of mode size 2, q >= 1, d >= 1 *)
+Theorem C11_qtt_to_tt_wf : forall T (K : ops T) (Y : list (core T)) q d, 1 <= q -> 1 <= d ->
+  valid (repeat 2 (d * q)) Y -> exists Z, qtt_to_tt K Y q = Ok Z /\ valid (repeat (2 ^ q) d) Z.
+Proof. exact (@qtt_to_tt_valid). Qed.
+(* core_tt_to_qtt / tt_to_qtt for EVERY factorisation routine that meets only the shape half of its contract
+   (fac_shape: U has the rows of A, V its columns, common inner size >= 1) - exactness A = U V is not assumed, so zero,
+   rank-deficient and over-ranked cores, e = 0 and every rank cap are covered *)
+Theorem C11_core_tt_to_qtt_wf : forall T (K : ops T) (msvd : nat -> mat T -> mat T * mat T),
+  (forall c A, fac_shape A (fst (msvd c A)) (snd (msvd c A))) ->
+  forall G k, cn G = 2 ^ S k -> 1 <= cr1 G -> 1 <= cr2 G ->
+  exists Z, core_tt_to_qtt K msvd G = Ok Z /\ chain (cr1 G) Z (cr2 G) /\ Forall q2 Z /\ length Z = S k.
+Proof. exact (@core_tt_to_qtt_shape). Qed.
+Theorem C11_tt_to_qtt_wf : forall T (K : ops T) (msvd2 : nat -> nat -> mat T -> mat T * mat T),
+  (forall k c A, fac_shape A (fst (msvd2 k c A)) (snd (msvd2 k c A))) ->
+  forall q d (Y : list (core T)), 1 <= d -> valid (repeat (2 ^ S q) d) Y ->
+  exists Z, tt_to_qtt K msvd2 Y = Ok Z /\ valid (repeat 2 (d * S q)) Z.
+Proof. exact (@tt_to_qtt_valid). Qed.
+
+(* ---- fitting routines and interpolation: [shaped] = [valid] without the storage clause (exactly what vis.show
+   checks, plus mode sizes and positivity) ---- *)
+(* als (index version): every sample list (repeated samples, any order), every lstsq solver, any stop arguments; the
+   result has the (r1, n, r2) of every core of the initial approximation *)
+Theorem C11_als_wf : forall T (K : ops T) solve acc accv cb Sm (Y0 : list (core T)) nswp e evld lamb skip fuel Y inf ns,
+  als K solve acc accv cb Sm Y0 nswp e evld lamb skip fuel = Ok (Y, inf) -> shaped ns Y0 ->
+  shaped ns Y /\ ranks Y = ranks Y0.
+Proof. exact (@als_shaped). Qed.
+Theorem C11_als_func_wf : forall T (K : ops T) solve lamb acc accv H y (A0 : list (core T)) nswp e evld fuel Y inf ns,
+  als_func K solve acc accv H y A0 nswp e evld lamb fuel = Ok (Y, inf) -> shaped ns A0 ->
+  shaped ns Y /\ ranks Y = ranks A0.
+Proof. exact (@als_func_shaped). Qed.
+(* cross: however and whenever the run ends, the returned tensor has the original mode sizes and chained ranks
+   (re-export of the C06 invariant; Y0_ok = initial tensor well formed with sizes and ranks >= 1, pick_ok = maxvol contract) *)
+Theorem C11_cross_wf : forall T (K : ops T) P isinf f cb (pones : P) pdotL pdotR pvals pick pcoreG pfacR erank accuracy
+    accdata C fuel s,
+  Y0_ok pones C -> pick_ok pick ->
+  cross_m K isinf f cb pones pdotL pdotR pvals pick pcoreG pfacR erank accuracy accdata C fuel = Ok s ->
+  CrossGeo.tt_wf pones C (sY s).
+Proof. exact (@interrupted_wf). Qed.
+(* func_int: DCT-I needs mode sizes >= 2 (a mode of size 1 is rejected with an exception, as scipy does); DST-I none *)
+Theorem C11_func_int_wf : forall T (K : ops T) cs sn ns (Y : list (core T)) kind,
+  valid ns Y -> (kind = Cheb -> Forall (fun n => 2 <= n) ns) ->
+  exists A, func_int K cs sn Y kind = Ok A /\ valid ns A.
+Proof. exact (@func_int_valid). Qed.
+Theorem C11_func_int_rejects_size1 : forall T (K : ops T) cs sn (Y : list (core T)),
+  ~ Forall (fun G => 2 <= cn G) Y -> func_int K cs sn Y Cheb = Err OtherError.
+Proof. exact (@func_int_rejects_size1). Qed.
+(* func_int_general: mode sizes = numbers of basis functions; lstsq only returns one row per basis function *)
+Theorem C11_func_int_general_wf : forall T (K : ops T) (lstsq : nat -> mat T -> mat T -> mat T),
+  (forall c H M, mr (lstsq c H M) = mc H) ->
+  forall ns (Y : list (core T)) Hs, valid ns Y -> length Hs = length Y -> Forall (fun H => 1 <= mc H) Hs ->
+  valid (map (@mc T) Hs) (func_int_general K lstsq Y Hs).
+Proof. exact (@func_int_general_valid). Qed.
+
+(* ---- the guarded instance IS the plain model plus flags (projection) ---- *)
+(* matrix_svd at OG K on embedded inputs with lifted oracles returns exactly the embedding of the plain result: same
+   values, every flag down - for every matrix, e, r, eigh, argsort *)
+Theorem C11_matrix_svd_guarded_is_plain : forall T (K : ops T),
+  (forall x, oltb K (o0 K) x = true -> oeqb K x (o0 K) = false) -> oltb K (o0 K) (o0 K) = false ->
+  forall eigh argsort k (A : mat T) e rcap,
+  matrix_svd (OG K) (lift_eigh eigh) (lift_argsort argsort) k (mat_map embed A) (embed e) rcap =
+  (mat_map embed (fst (matrix_svd K eigh argsort k A e rcap)), mat_map embed (snd (matrix_svd K eigh argsort k A e rcap))).
+Proof. exact (@matrix_svd_embed). Qed.
+(* accuracy_of likewise, provided sqrt 2 is admissible and an exactly-zero reference norm is below the threshold *)
+Theorem C11_accuracy_guarded_is_plain : forall T (K : ops T) (isinf : T -> bool),
+  oltb K (oadd K (o1 K) (o1 K)) (o0 K) = false ->
+  forall big tiny z1 h1 z2 h2, (oeqb K z2 (o0 K) = true -> oltb K (oabs K z2) tiny = true) ->
+  accuracy_of (OG K) (fun x => isinf (fst x)) (embed big) (embed tiny) (embed z1) h1 (embed z2) h2 =
+  embed (accuracy_of K isinf big tiny z1 h1 z2 h2).
+Proof. exact (@accuracy_of_embed). Qed.
 
 (* ---- no division by a non-positive singular value (repair 60d0cb4) ---- *)
 (* for every number structure with 0 < x -> x <> 0 and not 0 < 0, every eigh / argsort, every matrix, e and r:
@@ -181,6 +254,35 @@ Proof.
   - intros [|[|i]] Hi; cbn [nth length] in *; try lia;
       (split; [reflexivity|]; split; [apply wfdat_mk|]; cbn; lia).
 Qed.
+(* degenerate instances of the fitting theorems: d = 2, mode size 1, rank 1, repeated samples, zero data *)
+Definition Y0deg : list (core Qc) := [mkcore 1 1 1 (fun _ _ _ => Q2Qc 1); mkcore 1 2 1 (fun _ _ _ => Q2Qc 1)].
+Definition Sdeg : list (@sample Qc) :=
+  [Smp [0; 0] (Q2Qc 0) (Q2Qc 1); Smp [0; 1] (Q2Qc 0) (Q2Qc 1); Smp [0; 1] (Q2Qc 0) (Q2Qc 1)].
+Example C11_als_degenerate_example : shaped [1; 2] Y0deg /\
+  exists Y inf, als OQc (gauss_solve OQc) (fun _ _ _ => Q2Qc 0) (fun _ _ => Q2Qc 0) None Sdeg Y0deg (Some 2) None None
+                    (Q2Qc (Qmake 1 1000)) false 10 = Ok (Y, inf) /\ map dims Y = [(1, 1, 1); (1, 2, 1)].
+Proof.
+  split.
+  - unfold shaped, Y0deg. split; [discriminate|]. split; [cbn; auto|]. split; [reflexivity|].
+    split; repeat constructor.
+  - eexists; eexists. split; vm_compute; reflexivity.
+Qed.
+Definition Ydeg : list (@mcore unit) := [mkc 1 1 1 tt; mkc 1 2 1 tt].
+Definition cfgdeg : @cfg Z unit := mkcfg Ydeg (Some 10) None (Some 2) None false false 1 1 5 None.
+Example C11_cross_degenerate_example : Y0_ok tt cfgdeg /\ pick_ok pick_ex /\
+  exists s, cross_m OZ (P := unit) (fun _ => false) f_ex None tt (fun _ _ => tt) (fun _ _ => tt) (fun _ _ _ _ => tt)
+              pick_ex (fun _ _ _ _ _ _ => tt) (fun _ _ _ _ _ _ => tt) (fun _ _ => 0%Z) (fun _ _ _ => 1%Z) (fun _ _ => 0%Z)
+              cfgdeg 5 = Ok s.
+Proof.
+  split; [|split; [exact pick_ex_ok|eexists; vm_compute; reflexivity]].
+  unfold Y0_ok, cfgdeg, Cross.d. cbn [c_Y0 Ydeg length].
+  split; [lia|]. split; [|split; [reflexivity|split; [|reflexivity]]].
+  - intros j Hj. destruct j as [|[|j']]; cbn; lia.
+  - intros j Hj. destruct j as [|j']; cbn; try reflexivity; lia.
+Qed.
+(* a shape-respecting factorisation exists (A = A * I) *)
+Example C11_fac_shape_satisfiable : forall (A : mat Qc), 1 <= mc A -> fac_shape A A (mid OQc (mc A)).
+Proof. intros A H. unfold fac_shape. cbn [mid mkmat mr mc]. auto. Qed.
 (* oracles meeting the shape contracts exist (exact QR / RQ / SVD of a 1 x 1 matrix, extended trivially) *)
 Example C11_contracts_satisfiable :
   qr_shape (fun (_ : nat) (A : mat Qc) => (mkmat (mr A) 1 (fun _ _ => Q2Qc 0), mkmat 1 (mc A) (fun _ _ => Q2Qc 0))) /\
